@@ -51,9 +51,10 @@ Symmetry(t, tol) == IF ~ReversalKeepsV(t, tol) THEN "ReversalKeeps"
 LatVerdict(c) ==
   LET p == ToPts(c.p) IN
   IF \E i \in 1..4, j \in 1..3 : p[i][j] \notin -MaxCoord..MaxCoord THEN <<"fail", "InputOnLattice", "harness">>
-  ELSE IF ~NonDegenerate(p) THEN <<"fail", "InputNonDegenerate", "harness">>
-  ELSE IF ~AxisGapOK(p) THEN <<"fail", "InputAxisGap", "harness">>
-  ELSE LET k == IUPACCell(p)  far == FarFromDiagonal(p) IN
+  ELSE LET P == Params(p) IN
+  IF ~NonDegP(P) THEN <<"fail", "InputNonDegenerate", "harness">>
+  ELSE IF ~AxisGapOKP(P) THEN <<"fail", "InputAxisGap", "harness">>
+  ELSE LET k == CellP(P)  far == FarFromDiagonalP(P) IN
   \* the harness measurer must itself be exact on the lattice (it is the corpus oracle)
   IF ObsSanity(c.ref) # "ok" \/ ~LatticeOctantV(k, c.ref, Tol, far) \/ Symmetry(c.ref, Tol) # "ok"
     THEN <<"fail", "MeasurerLatticeOctant", "harness">>
@@ -156,7 +157,7 @@ Verdict(c) ==
 
 \* cases in which the required angle is not a fixed point of negation (sign-sensitive)
 SignSensitive(c) ==
-  IF c.kind = "lat" THEN NonDegenerate(ToPts(c.p)) /\ ~FixedCell(IUPACCell(ToPts(c.p)))
+  IF c.kind = "lat" THEN LET P == Params(ToPts(c.p)) IN NonDegP(P) /\ ~FixedCell(CellP(P))
   ELSE IF c.kind = "phi" THEN Dist(c.phi, 0) > TolPhi /\ Dist(c.phi, PiU) > TolPhi
   ELSE TRUE
 
